@@ -401,7 +401,7 @@ def g_programs(ctx, rng, i):
     from geometer.exceptions import TensorComputationError
 
     dim = int(rng.integers(2, 5))
-    base = [(), (), (3,), (2, 3), (1, 2), (2, 1)][i % 6]
+    base = [(), (), (3,), (2, 3), (1, 2), (2, 1), (2, 3, 4), (3, 2, 2)][i % 8]
     nn = int(rng.integers(1, 5))
     mixed = (i % 11 == 0)
     style = i % 3
@@ -415,7 +415,7 @@ def g_programs(ctx, rng, i):
         # bound the size of the Einstein sum (iteration space of the contraction)
         used = {id(x) for e in edges for x in e}
         total_rank = sum(n.rank - n.free_indices for n in nodes if id(n) in used or style == 2 or not edges)
-        if (dim + 1) ** max(0, total_rank - len(edges)) * 6 <= 300000:
+        if (dim + 1) ** max(0, total_rank - len(edges)) * max(6, int(np.prod(base))) <= 300000:
             break
     else:
         return
@@ -540,6 +540,17 @@ def g_operators(ctx, rng, i):
         m ** k
     mc = Tensor(gen.coords(rng, (2, dim, dim), 3, "float"), covariant=[0], tensor_rank=2)
     mc ** 2
+    # a later node with two or three more collection axes than the nodes before it (axes of different lengths)
+    from geometer.base import LeviCivitaTensor, TensorDiagram
+    full = [(2, 3, 4), (4, 2, 3), (2, 5, 2, 3)][i % 3]
+    k = int(rng.integers(0, len(full) - 1))
+    e = LeviCivitaTensor(3)
+    u = Tensor(gen.coords(rng, full[len(full) - k:] + (3,), 4, "int"), covariant=False, tensor_rank=1)
+    v = Tensor(gen.coords(rng, full + (3,), 4, "int"), covariant=False, tensor_rank=1)
+    for nodes in ((u, v), (v, u)):
+        d = TensorDiagram((e, nodes[0]), (e, nodes[1]))
+        d.calculate()
+        TensorDiagram((e, nodes[0])).calculate()
 
 
 def _eps_ref(n):
